@@ -139,7 +139,14 @@ def check(prop, tier, seed, replay):
                 rnd.shuffle(rest)
                 behs = top[:170] + rest[:70]
             else:
-                behs = scheds
+                # all complete schedules are ~41 k, each takes about a second of real time (timers): the thorough tier
+                # replays the 6000 with the most context switches and 6000 random others
+                def switches(s):
+                    return sum(1 for a, b in zip(s["schedule"], s["schedule"][1:]) if a[0] != b[0])
+                scheds.sort(key=lambda s: (-switches(s), s["id"]))
+                rest = scheds[6000:]
+                rnd.shuffle(rest)
+                behs = scheds[:6000] + rest[:6000]
             # free-running repetitions (Go scheduler decides) for the combinations with all three operations
             for i in range(20 if tier == "quick" else 200):
                 c, k = rnd.choice(IDS[:2]), rnd.choice(IDS[:2])
@@ -151,7 +158,7 @@ def check(prop, tier, seed, replay):
         trace = os.path.join(wd, "trace.ndjson")
         # parallel: split over processes
         import concurrent.futures
-        nproc = 8 if len(behs) > 16 else 1
+        nproc = (12 if len(behs) > 2000 else 8) if len(behs) > 16 else 1
         parts = [behs[i::nproc] for i in range(nproc)]
         outs = [os.path.join(wd, "t%d.ndjson" % i) for i in range(nproc)]
         with concurrent.futures.ThreadPoolExecutor(nproc) as ex:
@@ -182,7 +189,7 @@ def check(prop, tier, seed, replay):
                evaluations=len(behs), distinct_nontrivial=nt["interleaved"],
                rule="complete schedules of TxnImpl enumerated by TLC (quick: stratified sample, thorough: all) plus free-running repetitions; non-trivial = at least two goroutines interleave inside each other's yield-point sequence on the real code (counted by the trace spec from the yield points actually passed)",
                schedules_followed=nt["followed"], schedules_drifted=nt["drifted"], design_models=[design] if design else [],
-               exhaustive=(tier == "thorough"))
+               exhaustive=False)
     rc = 0
     seen = set()
     for (clause, e) in violations:
